@@ -512,6 +512,25 @@ def generate_and_run(tier, seed, wdir):
             ev.append({"e": "xfancy", "cols": cols if cols >= 10 else 80, "j": 2, "frames": frames})
             ev.append({"e": "xcon", "items": items, "steps": table, "ran": sorted(s.name for s in steps),
                        "exit": rc, "fancy": True})
+        # 9a. what a running task printed last is shown under its message, cut to the terminal: lines
+        #     of multi-byte text and of bytes that are not UTF-8 at all, longer than any width used
+        #     (only the frames are judged here)
+        for cols in ((10, 40) if tier == "quick" else (10, 17, 40, 80)):
+            steps = [Step("y0", "printf 'ünïcödé ☃☃☃☃☃☃☃☃☃☃☃☃☃☃☃☃☃☃☃☃☃☃☃☃☃☃☃☃☃☃☃☃☃☃☃☃☃☃☃☃☃☃ 𝄞𝄞𝄞𝄞𝄞𝄞𝄞𝄞𝄞𝄞𝄞𝄞\\n'; sleep 0.7; echo x > y0.out", desc="Y0"),
+                     Step("y1", "printf '\\377\\376\\375\\374\\373\\372\\371\\370\\367\\366\\365\\364\\363\\362\\361\\360\\357\\356\\355\\354\\353\\352\\351\\350\\347\\346\\345\\344\\343\\342\\341\\340 tail of raw bytes that goes on and on and on and on and on and on and on\\n'; sleep 0.7; echo x > y1.out", desc="Y1"),
+                     Step("y2", "printf 'aaaaaaaaaaaaaaaaaaaaaaaaaaaaaaaaaaaaaaa€€€€€€€€€€€€€€€€€€€€€€€€€€€€€€€€€€€€€€€€€€€\\n'; sleep 0.7; echo x > y2.out", desc="Y2")]
+            sdir = os.path.join(root, "ptyu%d" % cols); shutil.rmtree(sdir, ignore_errors=True)
+            for d in ("obs", "pay", "m"):
+                os.makedirs(os.path.join(sdir, d))
+            open(os.path.join(sdir, "build.ninja"), "w").write(manifest(steps))
+            ev.append({"e": "xscn", "id": "ptyu%d" % cols})
+            rc, out = run_n2(n2, sdir, ["-j", "3"], use_pty=cols)
+            outs_ok = all(os.path.exists(os.path.join(sdir, "y%d.out" % i)) for i in range(3))
+            ev.append({"e": "xeq", "props": ["C20"], "tag": "pty-isolation", "a": [rc, outs_ok], "b": [0, True], "cols": cols})
+            frames, _ = fancy_frames(out, steps)
+            ev.append({"e": "xfancy", "cols": cols, "j": 3, "frames": frames})
+            ev.append({"e": "xeq", "props": ["C20"], "tag": "last-line-shown",
+                       "a": any(l[0] == "last" for f in frames for l in f["lines"]), "b": True})
         # 9b. many tasks at once (more than the display lists), long-running ones (time notes),
         #     a failing one, output without final newline
         for cols in ((10, 30, 80) if tier == "quick" else (10, 12, 30, 47, 80, 200)):
